@@ -142,7 +142,7 @@ func (pnf *PrevNextFinder) FindOutlink(root *html.Node, pageURL *nurl.URL, findN
 			continue
 		}
 
-		if findNext && !rxNumber.MatchString(linkHref[lenPrefix:]) {
+		if findNext && (len(linkHref) < lenPrefix || !rxNumber.MatchString(linkHref[lenPrefix:])) {
 			pnf.appendDebugStrForLink(link, "ignored: not prefix + number")
 			continue
 		}
